@@ -300,7 +300,7 @@ def gen_pub_parent(rnd, lzx):
     d = gen.depth(rnd)
     return {"k": k, "c": c, "depth": d, "ktag": ktag + (":odd" if secp.gmul(k)[1] & 1 else ":even"), "ctag": ctag,
             "pindex": 0 if d == 0 else gen.index(rnd)[1], "pfp": b"\x00" * 4 if d == 0 else gen.rbytes(rnd, 4),
-            "testnet": rnd.random() < 0.5, "form": rnd.choice(["ctor", "str", "str", "bytes", "stream"]), "vpurpose": rnd.choice([44, 44, 49, 84])}
+            "testnet": rnd.random() < 0.5, "form": rnd.choice(["ctor", "str", "str", "bytes", "stream", "stream-offset", "stream-second"]), "vpurpose": rnd.choice([44, 44, 49, 84])}
 
 
 def run(ctx):
@@ -352,7 +352,7 @@ def run(ctx):
             if case["depth"] == 0:
                 case["pindex"], case["pfp"] = 0, b"\x00" * 4
             case["path"] = [gen.index(rnd, hardened=False)[1] for _ in range(L)]
-            case["form"] = rnd.choice(["str", "ctor", "xpub-of-prv", "bytes", "stream"])
+            case["form"] = rnd.choice(["str", "ctor", "xpub-of-prv", "bytes", "stream", "stream-offset", "stream-second"])
             judge_pair_walk(ctx, case)
         for j in range(ctx.scale(320, 30000)):
             case = gen_pub_parent(rnd, lzx)
